@@ -98,7 +98,13 @@ impl SimCase {
     fn first_offset(&self) -> i128 {
         self.trace
             .iter()
-            .map(|(t, s)| if *s { *t as i128 } else { *t as i128 - self.delay_ns as i128 })
+            .map(|(t, s)| {
+                if *s {
+                    *t as i128
+                } else {
+                    *t as i128 - self.delay_ns as i128
+                }
+            })
             .min()
             .unwrap_or(0)
     }
@@ -135,8 +141,16 @@ pub fn ev_kind(e: &TriggerEvent) -> (u8, usize) {
 }
 
 pub const KIND_NAMES: [&str; 10] = [
-    "NormalRecv", "PaddingRecv", "TunnelRecv", "NormalSent", "PaddingSent", "TunnelSent",
-    "BlockingBegin", "BlockingEnd", "TimerBegin", "TimerEnd",
+    "NormalRecv",
+    "PaddingRecv",
+    "TunnelRecv",
+    "NormalSent",
+    "PaddingSent",
+    "TunnelSent",
+    "BlockingBegin",
+    "BlockingEnd",
+    "TimerBegin",
+    "TimerEnd",
 ];
 
 impl TEv {
@@ -145,7 +159,11 @@ impl TEv {
             "{}@{}{}{}",
             KIND_NAMES[self.kind as usize],
             if self.client { "c" } else { "s" },
-            if matches!(self.kind, 4 | 6 | 8 | 9) { format!("[m{}]", self.id) } else { String::new() },
+            if matches!(self.kind, 4 | 6 | 8 | 9) {
+                format!("[m{}]", self.id)
+            } else {
+                String::new()
+            },
             if self.padding { "(pad)" } else { "" }
         ) + &format!(" t={}", self.t)
     }
@@ -179,7 +197,12 @@ pub fn act_of(a: &TriggerAction) -> AEv {
             timeout_ns: 0,
             duration_ns: 0,
         },
-        TriggerAction::SendPadding { timeout, bypass, replace, machine } => AEv {
+        TriggerAction::SendPadding {
+            timeout,
+            bypass,
+            replace,
+            machine,
+        } => AEv {
             kind: 1,
             machine: machine.into_raw(),
             bypass: *bypass,
@@ -188,7 +211,13 @@ pub fn act_of(a: &TriggerAction) -> AEv {
             timeout_ns: timeout.as_nanos(),
             duration_ns: 0,
         },
-        TriggerAction::BlockOutgoing { timeout, duration, bypass, replace, machine } => AEv {
+        TriggerAction::BlockOutgoing {
+            timeout,
+            duration,
+            bypass,
+            replace,
+            machine,
+        } => AEv {
             kind: 2,
             machine: machine.into_raw(),
             bypass: *bypass,
@@ -197,7 +226,11 @@ pub fn act_of(a: &TriggerAction) -> AEv {
             timeout_ns: timeout.as_nanos(),
             duration_ns: duration.as_nanos(),
         },
-        TriggerAction::UpdateTimer { duration, replace, machine } => AEv {
+        TriggerAction::UpdateTimer {
+            duration,
+            replace,
+            machine,
+        } => AEv {
             kind: 3,
             machine: machine.into_raw(),
             bypass: false,
@@ -289,7 +322,11 @@ pub fn run_sim(case: &SimCase) -> Result<SimOut, String> {
     let mut steps: Vec<Step> = vec![];
     for r in log {
         match r {
-            SimRec::Event { is_client, time, event } => {
+            SimRec::Event {
+                is_client,
+                time,
+                event,
+            } => {
                 let (kind, id) = ev_kind(&event);
                 steps.push(Step {
                     client: is_client,
@@ -339,7 +376,16 @@ pub fn gen_trace(g: &mut Gen, max_packets: usize) -> Vec<(u64, bool)> {
 }
 
 pub fn gen_delay(g: &mut Gen) -> u64 {
-    *g.pick(&[0, 1, 1_000, 5_000_000, 5_000_000, 50_000_000, 1_000_000_000, 10_000_000])
+    *g.pick(&[
+        0,
+        1,
+        1_000,
+        5_000_000,
+        5_000_000,
+        50_000_000,
+        1_000_000_000,
+        10_000_000,
+    ])
 }
 
 /// machines whose time scales match simulated traces
@@ -393,7 +439,11 @@ pub fn gen_sim_case(
         trace,
         third_field: g.chance(0.2),
         delay_ns: gen_delay(g),
-        pps: if g.chance(0.25) { Some(*g.pick(&[1, 2, 10, 100, 1000, 10_000])) } else { None },
+        pps: if g.chance(0.25) {
+            Some(*g.pick(&[1, 2, 10, 100, 1000, 10_000]))
+        } else {
+            None
+        },
         mc,
         ms,
         args: gen_args(g, filters),
